@@ -16,9 +16,17 @@ type c09Case struct {
 
 var c09CaseNames = []string{"Aa", "Bb", "Cc", "Dd", "Ee"}
 
+// c09Foreign: 0 = none; 1 / 2 = an arm naming a case of ANOTHER union (payload-less / payload
+// ignored) is inserted before arm c09ForeignPos.  Such an arm covers nothing of U.
+var c09Foreign, c09ForeignPos int
+
 func c09Program(cases []c09Case, arms []int, forms []int, dflt bool, ctx int) string {
 	var sb strings.Builder
-	sb.WriteString("package main\n\ntype U =\n")
+	sb.WriteString("package main\n\n")
+	if c09Foreign != 0 {
+		sb.WriteString("type W =\n  | Fx\n  | Fy of int\n\n")
+	}
+	sb.WriteString("type U =\n")
 	for _, c := range cases {
 		if c.payload == "" {
 			sb.WriteString("  | " + c.name + "\n")
@@ -64,6 +72,9 @@ func c09Program(cases []c09Case, arms []int, forms []int, dflt bool, ctx int) st
 	}
 	sb.WriteString(ind + "match " + tgt + " with\n")
 	for i, a := range arms {
+		if c09Foreign != 0 && i == c09ForeignPos {
+			sb.WriteString(ind + "| " + []string{"", "Fx", "Fy _"}[c09Foreign] + " -> 77\n")
+		}
 		c := cases[a]
 		pat := c.name
 		if c.payload != "" {
@@ -196,6 +207,23 @@ func vC09(seed int64, count int, extra []string) {
 						forms[i] = r.Intn(3)
 					}
 					c09Check(cases, arms, forms, dflt, 0)
+					if r.Intn(4) == 0 {
+						// a repeated arm covers nothing new
+						k := r.Intn(len(arms))
+						arms2 := append(append(append([]int{}, arms[:k+1]...), arms[r.Intn(len(arms))]), arms[k+1:]...)
+						forms2 := make([]int, len(arms2))
+						for i := range forms2 {
+							forms2[i] = r.Intn(3)
+						}
+						c09Check(cases, arms2, forms2, dflt, []int{0, 1, 3}[r.Intn(3)])
+						vstat("c09.repeated-arm")
+					}
+					if r.Intn(3) == 0 {
+						c09Foreign, c09ForeignPos = 1+r.Intn(2), r.Intn(len(arms))
+						c09Check(cases, arms, forms, dflt, []int{0, 1, 4}[r.Intn(3)])
+						c09Foreign = 0
+						vstat("c09.foreign-arm")
+					}
 					if mix >= 2 || n <= 3 {
 						c09Check(cases, arms, forms, dflt, 1+r.Intn(6))
 					}
